@@ -75,6 +75,9 @@ fn reps_for(fingerprint: bool, reliable: bool, cred: u8) -> Vec<Rep> {
     let mut v = vec![
         Rep { name: "no-mechanism", cfg: cfg(Mech::None), prefix: vec![], nonce: None, algs: vec![], realm: REALM, anon: false },
         Rep { name: "short-term/unlearned", cfg: cfg(Mech::ShortTerm(None)), prefix: vec![], nonce: None, algs: vec![], realm: REALM, anon: false },
+        // a response that was REFUSED (integrity under another password) teaches nothing: the client is still unlearned
+        Rep { name: "short-term/unlearned-after-refused-MI", cfg: cfg(Mech::ShortTerm(None)), prefix: vec![s.clone(), d(0, ok(RMac::MiOtherPass))], nonce: None, algs: vec![], realm: REALM, anon: false },
+        Rep { name: "short-term/unlearned-after-refused-SHA256", cfg: cfg(Mech::ShortTerm(None)), prefix: vec![s.clone(), d(0, ok(RMac::BadSha))], nonce: None, algs: vec![], realm: REALM, anon: false },
         Rep { name: "short-term/learned-MI", cfg: cfg(Mech::ShortTerm(None)), prefix: vec![s.clone(), d(0, ok(RMac::Mi))], nonce: None, algs: vec![], realm: REALM, anon: false },
         Rep { name: "short-term/learned-SHA256", cfg: cfg(Mech::ShortTerm(None)), prefix: vec![s.clone(), d(0, ok(RMac::Sha))], nonce: None, algs: vec![], realm: REALM, anon: false },
         Rep { name: "short-term/configured-MI", cfg: cfg(Mech::ShortTerm(Some(false))), prefix: vec![], nonce: None, algs: vec![], realm: REALM, anon: false },
@@ -519,6 +522,16 @@ pub fn run(ctx: &RunCtx) -> i32 {
                 }
                 match check_packet(rp, &apps[*li], outs[0], if indication { 1 } else { 0 }, method, &earlier) {
                     Ok(()) => {
+                        // "still unlearned" means: the same attribute kinds as a client that never received anything
+                        if rp.name.starts_with("short-term/unlearned-after-refused") && li % 3 == 0 {
+                            let mut fresh = explore::replay(&rp.cfg, &apps, &Nop, &[]);
+                            let o2 = explore::step(&mut fresh, &Event::SendM { app: *li, method, indication }, None);
+                            let kinds = |b: &[u8]| ref_parse(b).map(|p| p.tlvs.iter().map(|t| t.ty).collect::<Vec<u16>>()).unwrap_or_default();
+                            let want = o2.events.iter().find_map(|e| if let OEv::Out { bytes, .. } = e { Some(kinds(bytes)) } else { None }).unwrap_or_default();
+                            if kinds(outs[0]) != want {
+                                r.violate(format!("credential-attributes-differ-from-the-unlearned-client's/{}", rp.name), format!("{:04x?} vs {:04x?}", kinds(outs[0]), want), replay());
+                            }
+                        }
                         r.sym(rp.name);
                         r.outcome(format!("{}:{}", rp.name, ref_parse(outs[0]).map(|p| p.tlvs.len()).unwrap_or(0)));
                     }
@@ -564,7 +577,7 @@ pub fn run(ctx: &RunCtx) -> i32 {
         rep,
         Finish {
             level: "model_checking",
-            rule: format!("{} application attribute lists (every sequence of length <= {} over a 12-entry alphabet: two SOFTWARE values, PRIORITY, and pre-populated USERNAME / REALM / NONCE / USERHASH / PASSWORD-ALGORITHM / PASSWORD-ALGORITHMS / MESSAGE-INTEGRITY / MESSAGE-INTEGRITY-SHA256 / FINGERPRINT) x {} credential-state representatives (15 states reached by replaying short histories on the real client: no mechanism; short-term unlearned / learned MI / learned SHA256 / configured MI / SHA256; long-term first request / retry after plain 401 / retry after cookie 401 with anonymity and algorithms / the same with unassigned feature bits set in the cookie / subsequent MD5 / subsequent SHA256 / retry after 438 / retry after a second 401 naming the realm in another letter case / subsequent request after a second 401 for another realm; each x fingerprint on/off x both transports; the credential states again with a 70-byte user name / 129-byte password and with a non-ASCII user name / a password that OpaqueString enforcement rewrites) x {{request, indication}} (methods 0x003 and 0xFFF on a subset in the quick tier); every emitted packet is parsed by the independent TLV reader: class / method / fresh id, application attributes first (one per type, first-insertion position, last value), then only the mechanism's credential attributes with the client's (not the application's) values, then at most one MI, SHA256, FINGERPRINT in that order, each verifying under the configured credentials by independent HMAC / CRC, no type twice, FINGERPRINT last when configured; retransmissions along timer runs are byte-identical; clients built with the optional builder calls in each of the six orders (limits 1 and 10) behave alike in every credential state; the largest packets: in every credential state, requests and indications carrying an UNKNOWN-ATTRIBUTES of n codes (alone or after a 4-byte SOFTWARE) with n swept so that the packet size runs through the last 48 bytes up to the largest STUN message (65,552 bytes) and beyond, into a 70,000-byte buffer - emitted whole and well-formed up to 65,552 bytes, refused without a packet beyond", n_lists, max_len, n_reps),
+            rule: format!("{} application attribute lists (every sequence of length <= {} over a 12-entry alphabet: two SOFTWARE values, PRIORITY, and pre-populated USERNAME / REALM / NONCE / USERHASH / PASSWORD-ALGORITHM / PASSWORD-ALGORITHMS / MESSAGE-INTEGRITY / MESSAGE-INTEGRITY-SHA256 / FINGERPRINT) x {} credential-state representatives (17 states reached by replaying short histories on the real client: no mechanism; short-term unlearned / still unlearned after a refused MI / SHA256 response (same attribute kinds as the unlearned client) / learned MI / learned SHA256 / configured MI / SHA256; long-term first request / retry after plain 401 / retry after cookie 401 with anonymity and algorithms / the same with unassigned feature bits set in the cookie / subsequent MD5 / subsequent SHA256 / retry after 438 / retry after a second 401 naming the realm in another letter case / subsequent request after a second 401 for another realm; each x fingerprint on/off x both transports; the credential states again with a 70-byte user name / 129-byte password and with a non-ASCII user name / a password that OpaqueString enforcement rewrites) x {{request, indication}} (methods 0x003 and 0xFFF on a subset in the quick tier); every emitted packet is parsed by the independent TLV reader: class / method / fresh id, application attributes first (one per type, first-insertion position, last value), then only the mechanism's credential attributes with the client's (not the application's) values, then at most one MI, SHA256, FINGERPRINT in that order, each verifying under the configured credentials by independent HMAC / CRC, no type twice, FINGERPRINT last when configured; retransmissions along timer runs are byte-identical; clients built with the optional builder calls in each of the six orders (limits 1 and 10) behave alike in every credential state; the largest packets: in every credential state, requests and indications carrying an UNKNOWN-ATTRIBUTES of n codes (alone or after a 4-byte SOFTWARE) with n swept so that the packet size runs through the last 48 bytes up to the largest STUN message (65,552 bytes) and beyond, into a 70,000-byte buffer - emitted whole and well-formed up to 65,552 bytes, refused without a packet beyond", n_lists, max_len, n_reps),
             assumptions: vec!["which credential attributes each long-term state requires is C08's question; C13 checks form, replacement and verification".into()],
             required_symbols: vec!["no-mechanism", "short-term/unlearned", "short-term/learned-SHA256", "long-term/first-request", "long-term/retry-after-401-cookie", "long-term/subsequent-SHA256", "long-term/retry-after-438", "long-term-indication-refused", "retransmission-identical", "client-builder-routes", "largest-packets", "beyond-the-largest-packet-refused"],
             min_outcomes: 12,
